@@ -242,6 +242,11 @@ def _case_tri(rng, kind, rect=False):
             out["angle"] = float(rng.uniform(0, 2 * np.pi))
             out["scale"] = float(10.0 ** rng.uniform(-2, 2))
             out["shift"] = [float(v) for v in rng.uniform(-3, 3, size=2)]
+            if kind == "tri" and rng.random() < 0.3:
+                # micrometre-size tessellations (cell areas ~1e-11): sums of overlaps are
+                # scale invariant, absolute area thresholds are not
+                out["scale"] = float(10.0 ** rng.uniform(-5.5, -3))
+                out["shift"] = [float(v) * out["scale"] for v in rng.uniform(-3, 3, size=2)]
         if rect:
             out["rect"] = [nx, ny]
         if kind == "match2d":
